@@ -438,6 +438,58 @@ func run(repo string) (string, error) {
 		}
 	}
 	fmt.Fprintf(&b, "/-- dosnode handleCR: every statement that computes the secret, the commitment, the cid, and the two calls, in order -/\ndef handleCRArgs : List String := %s\n\n", strList(crArgs))
+	// the group-key glue of the node (review E #4): from the finished key generation to RegisterGroupPubKey
+	fsG, fG, err := ex.Parse(filepath.Join(repo, "share", "dkg", "pedersen", "pdkg_pipes.go"))
+	if err != nil {
+		return "", err
+	}
+	gg := ex.FuncDecl(fG, "", "genGroup")
+	if gg == nil {
+		return "", fmt.Errorf("genGroup not found in share/dkg/pedersen/pdkg_pipes.go")
+	}
+	// the body of the (single) goroutine a stage function starts
+	goBody := func(body *ast.BlockStmt) *ast.BlockStmt {
+		var found *ast.BlockStmt
+		n := 0
+		ast.Inspect(body, func(x ast.Node) bool {
+			if g, ok := x.(*ast.GoStmt); ok {
+				if fl, ok := g.Call.Fun.(*ast.FuncLit); ok {
+					n++
+					if found == nil {
+						found = fl.Body
+					}
+				}
+				return false
+			}
+			return true
+		})
+		if n != 1 {
+			return &ast.BlockStmt{}
+		}
+		return found
+	}
+	var glue []string
+	for _, l := range append(skeleton(fsG, gg.Body), skeleton(fsG, goBody(gg.Body))...) {
+		t := l[strings.Index(l, " ")+1:]
+		for _, k := range []string{"pubKey", "pubPoly", "groupId", "dataReturn", "secShare", "out <-", "out ="} {
+			if strings.Contains(t, k) {
+				glue = append(glue, t)
+				break
+			}
+		}
+	}
+	fmt.Fprintf(&b, "/-- share/dkg/pedersen genGroup: every statement that mentions the share, the public polynomial, the group key, its coordinates, the group id, the value sent on out — in order -/\ndef genGroupKeyGlue : List String := %s\n\n", strList(glue))
+	fsS, fS, err := ex.Parse(filepath.Join(repo, "dosnode", "dos_stages.go"))
+	if err != nil {
+		return "", err
+	}
+	for _, fn := range []string{"registerGroup", "reportQueryResult"} {
+		fd := ex.FuncDecl(fS, "", fn)
+		if fd == nil {
+			return "", fmt.Errorf("%s not found in dosnode/dos_stages.go", fn)
+		}
+		fmt.Fprintf(&b, "/-- dosnode %s: the complete statement skeleton (depth statement) -/\ndef %sBody : List String := %s\n\n", fn, fn, strList(append(skeleton(fsS, fd.Body), skeleton(fsS, goBody(fd.Body))...)))
+	}
 	b.WriteString("structure Closure where\n  method : String\n  prep : List String\n  results : String\n  call : String\n  assigns : List (String × String)\n  last : String\n  deriving DecidableEq, Repr\n\n")
 	b.WriteString("/-- the request closures `f := func(ctx) (tx, err) {…}` of the adaptor's methods -/\ndef closures : List Closure := [\n")
 	for i, c := range cls {
